@@ -1078,12 +1078,14 @@ theorem classify_ident_iff (w : List Char) :
 theorem classify_keywords : classify ['o', 'r'] = .or ∧ classify ['a', 'n', 'd'] = .and ∧
     classify ['n', 'o', 't'] = .not := by decide
 
-/-- Columns of `ParseError` lie between 1 and one past the end of the string. -/
+/-- Columns of `ParseError` lie between the position of the first character and one past the end of the string
+(positions are 0-based, the column adds `Generated.exprErrorColOffset` — 1 in the current source). -/
 theorem colAt_bounds (isWord : Char → Bool) (cs : List Char) (k : Nat) :
-    1 ≤ (lex isWord cs).colAt k ∧ (lex isWord cs).colAt k ≤ cs.length + 1 := by
+    Generated.exprErrorColOffset ≤ (lex isWord cs).colAt k ∧
+    (lex isWord cs).colAt k ≤ cs.length + Generated.exprErrorColOffset := by
   obtain ⟨h1, h2⟩ := lexGo_bounds isWord cs.length 0 cs (Nat.le_refl _)
   unfold Lexed.colAt lex
-  simp only [Generated.exprErrorColOffset]
+  generalize Generated.exprErrorColOffset = off
   split
   · rename_i tk p rest heq
     have hmem : (tk, p) ∈ (lexGo isWord cs.length 0 cs).toks :=
